@@ -627,9 +627,17 @@ class C13(Prop):
             if k == 3:
                 return ({key: seq, "shared": seq} if seq % 3 else ((key, seq), ("shared", seq)))
             # the digester RETURNS, but what it hands back is foreign data of an unusual type:
-            if k == 4:      # truthy, and dict.update cannot merge any of it
+            if k == 4:      # truthy, and dict.update cannot merge any of it — or the truth test itself raises (in the
+                #             library every `if result:` is followed at once by the merge, inside the same `try`)
+                class BoolRaises:
+                    def __bool__(self):
+                        raise ValueError("truth value of a result set is ambiguous")
+
+                class LenRaises:
+                    def __len__(self):
+                        raise OSError("connection lost")
                 return [7, "summary of the item", 2.5, object(), True, Fraction(1, 2), [1], b"ab", {1, 2},
-                        ("abc", "d")][seq % 10]
+                        ("abc", "d"), BoolRaises(), LenRaises()][seq % 12]
             if k in (5, 7):  # the merge fails part-way: the pairs before the failure are already in the caller's dict
                 pairs = [(key, seq)] + ([("shared", seq)] if k == 7 else [])
                 return self._unmergeable_after(pairs, seq)
@@ -813,6 +821,10 @@ class C13(Prop):
             return "ok"
         if op == "digest":
             k = None if t[1] == "none" else int(t[1])
+            # max_items of an unusual but legal type: bool for 0 / 1, an int subclass otherwise (a pure function of
+            # the history so far)
+            if k is not None and ctx["seq"] % 2 == 1:
+                k = bool(k) if k in (0, 1) else type("Count", (int,), {})(k)
             r = lys.digest(k)
             ctx["rep"] += len(r.errors)
             return (f"digest {r.disposed} {len(r.errors)} {show_bool(r.success)} {self._show_bin(r.recycled)}", r)
